@@ -527,6 +527,8 @@ pub fn cases_int(r: &mut Reg, tier: Tier, _seed: u64) {
         (500, 400, 30, true), (250, 200, 230, true), (5000, 2500, 500, true), (10100, 10000, 1000, true), (10100, 100, 1000, true), (100100, 100, 10000, true),
         (1 << 40, 1 << 39, 1 << 20, true), (1 << 40, 1 << 20, 1 << 39, true),
         (60, 30, 17, true), (60, 30, 19, true), (60, 30, 21, true), (200, 50, 40, true), (200, 50, 44, true), (200, 150, 160, true),
+        // siblings differing in one population count only (same sample size and feature count)
+        (10040, 500, 400, true), (9600, 500, 400, true),
     ];
     for &nn in &[u64::MAX - 2, 1 << 63, 1 << 62] {
         hyp.push((nn, nn / 2, 1000, false));
